@@ -628,6 +628,16 @@ impl<'a> Ctx<'a> {
                 .and_then(|c| c.doc_path.get(&self.sc.docs[d.doc].path))
                 .map(|p| self.obs.stderr.contains(&format!("failing in {:?}", p)))
                 .unwrap_or(false);
+            // (with scrut's own stderr cut off there is no message to read: the run ended in the
+            // last document any test case of which reached a shell)
+            let stderr_dead = self.facts.fault_kinds.iter().any(|k| k == "output_closed:stderr" || k == "output_closed");
+            let last_touched = self
+                .obs
+                .docs
+                .iter()
+                .rposition(|dd| dd.tests.iter().any(|t| self.facts.delivered.get(&t.nonce).map(|p| !p.is_empty()).unwrap_or(false)))
+                .map(|i| self.obs.docs[i].doc);
+            let named = named || (stderr_dead && last_touched == Some(d.doc));
             // a document in which a test case ended with its skip code is skipped - it does not
             // make the run fail
             if j.skipped_doc && !j.faulted && named && self.sc.tier == Tier::Cli && self.obs.sim_abort.is_none() && self.obs.exit_status == Some(1) {
